@@ -470,7 +470,8 @@ class BaseCooccurrenceVectorizer(BaseEstimator, TransformerMixin):
             coo_sizes = (self.coo_initial_bytes // 20) // np.sum(average_window)
             self._coo_sizes = np.array(coo_sizes * average_window, dtype=np.int64)
 
-        self._coo_sizes = np.divmod(self._coo_sizes, self.n_threads)[0]
+        # The accumulator needs room for at least a couple of entries plus its sentinel slot.
+        self._coo_sizes = np.maximum(np.divmod(self._coo_sizes, self.n_threads)[0], 8)
 
     def _generate_chunk_boundaries(self, data, n_threads):
         token_list_sizes = np.array([len(x) for x in data])
